@@ -20,6 +20,7 @@ void _ZN3etl14assert_handlerINS_10assert_msgEEEvRKT_(struct etl_assert_msg *m)
 #ifdef VF_NATIVE
     if (!vf_quiet) printf("REPLAY-HANDLER line=%d expected=%d\n", m->line, vf_expect_handler);
     if (!vf_expect_handler) vf_fail("C05: assert_handler fired although the call respects the documented precondition");
+    else { VF_HANDLER_CHECK(); }
     vf_exit();
 #else
     if (vf_expect_handler) {
